@@ -189,7 +189,7 @@ func khRandomLine(r *rand.Rand, p map[string]*poolKey, certs []*hostCert) string
 
 type khQuery struct {
 	Host, Port string
-	AddrEmpty  bool   // address "" : the remote address is what is looked up
+	AddrEmpty  bool // address "" : the remote address is what is looked up
 	Remote     *net.TCPAddr
 	KeyName    string
 	Cert       *hostCert
@@ -261,7 +261,11 @@ func render(r *rand.Rand, lines []string, crlf bool) string {
 
 // goOutcome runs the real callback and renders the result in the model's terms.
 func goOutcome(cb ssh.HostKeyCallback, paths []string, f *khFile, q *khQuery, key ssh.PublicKey, keyB64 func(ssh.PublicKey) string) (kr.Outcome, string, error) {
-	err := cb(q.addr(), q.Remote, key)
+	return mapOutcome(cb(q.addr(), q.Remote, key), paths, f, q, key, keyB64)
+}
+
+// mapOutcome renders a callback result in the model's terms (pure function).
+func mapOutcome(err error, paths []string, f *khFile, q *khQuery, key ssh.PublicKey, keyB64 func(ssh.PublicKey) string) (kr.Outcome, string, error) {
 	if q.Cert != nil {
 		if err == nil {
 			return kr.Outcome{Kind: kr.OK}, "", nil
@@ -504,6 +508,12 @@ func TestC42(t *testing.T) {
 		}
 	}
 
+	if mon.RaceBuild {
+		// race-detector variant: only the shared-callback concurrency stream
+		e.runConcurrent()
+		return
+	}
+	e.runConcurrent()
 	e.runPatterns()
 	e.runFiles(haveKeygen)
 	e.runLines(haveKeygen)
